@@ -1,5 +1,6 @@
 import D2P.Props.Examples
 import D2P.Model.Output
+import D2P.Proofs.Elems
 /-!
 # Open findings, as kernel-checked witnesses
 
@@ -38,6 +39,13 @@ where the next block begins (`conclude_implicit_paragraph`) — before the repai
 when the part ended -/
 theorem C12_repaired_stray_inline :
     (newDepthCollector cfg [] strayDoc >>= runStrs) = .ok [[lit "a"], [lit "<latex>z</latex>"], [lit "b"], [lit "c"]] := by
+  decide +kernel
+
+/-- non-vacuity of `C02_implicit_in_order_reachable`: walking a stray run from the initial state leaves
+exactly one open paragraph, an implicit one -/
+theorem stray_run_pending :
+    (match walkL cfg [] false ({ bullets := { numAttrs := [] } } : DC) [r 2 [t 3 "stray"]] with
+      | .ok s => some (elems s) | .error _ => none) = some [none] := by
   decide +kernel
 
 end D2P.Ex
